@@ -233,3 +233,52 @@ class Env:
         if isinstance(e, ast.IfExp):
             raise NotAlgebraic('conditional expression')
         raise NotAlgebraic(type(e).__name__)
+
+
+def from_nf(t, names=None):
+    """Convert a norm.nf / symx normal-form tuple into a Rat.  Unknown nodes become symbols named by their
+    rendering, so equal sub-terms are equal symbols."""
+    from .norm import show
+    names = names or {}
+    if not isinstance(t, tuple):
+        raise NotAlgebraic(repr(t))
+    k = t[0]
+    if k == 'const':
+        import ast as _ast
+        try:
+            v = _ast.literal_eval(t[1])
+        except Exception:
+            raise NotAlgebraic(t[1])
+        if isinstance(v, bool) or not isinstance(v, (int, float)):
+            raise NotAlgebraic(t[1])
+        return Rat.const(Fraction(v))
+    if k in ('name', 'attr'):
+        s = show(t)
+        return names.get(s, Rat.sym(s))
+    if k == 'Add':
+        r = Rat.const(0)
+        for x in t[1:]:
+            r = r + from_nf(x, names)
+        return r
+    if k == 'Mult':
+        r = Rat.const(1)
+        for x in t[1:]:
+            r = r * from_nf(x, names)
+        return r
+    if k == 'Sub':
+        return from_nf(t[1], names) - from_nf(t[2], names)
+    if k == 'Div':
+        return from_nf(t[1], names) / from_nf(t[2], names)
+    if k == 'USub':
+        return -from_nf(t[1], names)
+    if k == 'UAdd':
+        return from_nf(t[1], names)
+    if k == 'Pow':
+        b = from_nf(t[1], names)
+        e = from_nf(t[2], names)
+        if e.n.is_const() and e.d.is_const() and e.n.const_value().denominator == 1 and abs(e.n.const_value()) <= 16:
+            return b ** int(e.n.const_value())
+    if k == 'call' and len(t) == 3 and t[1] in (('name', 'float'),):
+        return from_nf(t[2], names)
+    s = show(t)
+    return names.get(s, Rat.sym(s))
